@@ -178,6 +178,7 @@ class Sym:
         self.trace = []       # abstract events (concrete strings only)
         self.known = []
         self.missing = []     # names not in the concrete model (replay)
+        self.is_fragile = False
 
     # -- inputs ---------------------------------------------------------------
     def int(self, name, lo, hi):
@@ -270,6 +271,11 @@ class Sym:
 
     def goal(self, name):
         self.goals.add(name)
+
+    def fragile(self):
+        """the path took a decision inside a round-off tolerance band: its model may replay
+        differently in IEEE doubles, so it is not used as a witness / preferred counterexample"""
+        self.is_fragile = True
 
     def event(self, text):
         self.trace.append(text)
@@ -377,9 +383,10 @@ def explore(harness, params=None, pins=None, tolerate=(), budget_s=600.0,
     r0 = REALIZATIONS["n"]
     REALIZATIONS["sites"] = {}
     st = dict(paths=0, ok=0, ignored=0, unknown=0, known=0, failed=0, exhausted=False,
-              decisions=0, fails=[], goals={}, known_codes={}, error=None, samples=[],
+              decisions=0, fails=[], goals={}, goals_seen={}, known_codes={}, error=None, samples=[],
               unknown_reasons={})
     seen_sig = set()
+    cand_count, robust_count = {}, {}
     want_goals = set(want_goals)
     while st["paths"] < max_paths:
         if time.time() - t0 > budget_s:
@@ -454,16 +461,26 @@ def explore(harness, params=None, pins=None, tolerate=(), budget_s=600.0,
                     code = None
                 else:
                     st["failed"] += 1
-                if code is not None and code not in seen_sig and len(st["fails"]) < max_fail:
-                    seen_sig.add(code)
-                    try:
-                        model = extract_model(space, sym)
-                    except Exception as e:  # noqa
-                        model = None
-                    st["fails"].append(dict(code=code, msg=msg[:600], tb=tb[-1200:], model=model,
-                                            trace=list(sym.trace)[-60:]))
+                if code is not None:
+                    ncand = cand_count.get(code, 0)
+                    nrobust = robust_count.get(code, 0)
+                    want = (code in seen_sig and ((ncand < 3) or (not sym.is_fragile and nrobust < 2))) or \
+                           (code not in seen_sig and len(seen_sig) < max_fail)
+                    if want:
+                        seen_sig.add(code)
+                        try:
+                            model = extract_model(space, sym)
+                        except Exception as e:  # noqa
+                            model = None
+                        cand_count[code] = ncand + 1
+                        if not sym.is_fragile:
+                            robust_count[code] = nrobust + 1
+                        st["fails"].append(dict(code=code, msg=msg[:600], tb=tb[-1200:], model=model,
+                                                trace=list(sym.trace)[-60:], fragile=sym.is_fragile))
             if outcome in ("ok", "known"):
-                newgoals = [g for g in sym.goals if g not in st["goals"]]
+                for g in sym.goals:
+                    st["goals_seen"][g] = st["goals_seen"].get(g, 0) + 1
+                newgoals = [] if sym.is_fragile else [g for g in sym.goals if len(st["goals"].get(g, [])) < 2]
                 if newgoals or len(st["samples"]) < 3:
                     try:
                         model = extract_model(space, sym)
@@ -471,7 +488,7 @@ def explore(harness, params=None, pins=None, tolerate=(), budget_s=600.0,
                         model = None
                     if model is not None:
                         for g in newgoals:
-                            st["goals"][g] = model
+                            st["goals"].setdefault(g, []).append(model)
                         if len(st["samples"]) < 3:
                             st["samples"].append(dict(inputs=model, trace=list(sym.trace)[-40:]))
             try:
